@@ -294,6 +294,11 @@ def template_cases(R, r):
     template = "[{inner_()" + spec_text(outer_spec) + "}|{" + names[k2] + spec_text(other_spec) + "}|{inner_()}]"
     want = "[" + apply_spec(inner_text, outer_spec) + "|" + apply_spec(fmt_value(vals[k2]), other_spec) + "|" + inner_text + "]"
     R.expect("%s; %s; s(%s)" % (defs, helper, S(template, r)), want, "s:nested-interpolation", ("s-nested", template, helper, tuple(map(str, vals))))
+    # one argument that is a container is one argument: its rendered value is inserted
+    lit, shown = r.choice([("[1, 2]", "[1, 2]"), ("[]", "[]"), ("[[1, 2], [3]]", "[[1, 2], [3]]"), ("['a']", "['a']"), ("<<2, 1>>", "<<1, 2>>"), ("<<<1 => 2>>>", "<<<1 => 2>>>"),
+                           ("[[]]", "[[]]"), ("['x', 'y', 'z']", "['x', 'y', 'z']"), ("[7]", "[7]")])
+    R.expect("sprintf('<{0}>', %s)" % lit, "<%s>" % shown, "sprintf:one-container-argument", ("sprintf-container", lit))
+    R.expect("def v_ = %s; [s('<{v_}>'), sprintf('{0}|{1}', v_, 1)]" % lit, ["<%s>" % shown, "%s|1" % shown], "s:container-value", ("s-container", lit))
     # placeholders that hold an expression laid out with blanks, tabs and line breaks (inside the braces, and between them)
     ws = r.choice([" ", "\n", "\t", "\r\n", "  \n  ", "\n\n"])
     x, y = r.randint(0, 50), r.randint(1, 9)
